@@ -128,8 +128,58 @@ func run(r *simkit.Run) {
 	invMuts, limMuts := invalidMutations(), limitMutations()
 
 	for i := 0; i < steps; i++ {
-		ev := simkit.Pick(c, "event", 40, 40, 4, 4, 3, 3, 4, 2)
+		wInv := 0
+		if prof == "selection" {
+			wInv = 5
+		}
+		ev := simkit.Pick(c, "event", 40, 40, 4, 4, 3, 3, 4, 2, wInv, wInv)
 		switch ev {
+		case 8: // invalidate a delivered block
+			var cands []*MBlock
+			for _, b := range w.Blocks[1:] {
+				if s.accepted(b) {
+					cands = append(cands, b)
+				}
+			}
+			if len(cands) == 0 {
+				continue
+			}
+			b := cands[c.Intn(len(cands), "invalidate")]
+			err := n.Chain.InvalidateBlock(&b.Hash)
+			if !s.excluded(b) {
+				// invalidating a block that is already excluded through an
+				// ancestor changes nothing
+				s.manualInv[b] = true
+			}
+			r.Event("invalidate", "%v main=%v err=%v", b, b.IsAncestorOf(s.prevTip), err != nil)
+			r.Sig("invalidate")
+			r.Probe("invalidate")
+			if err != nil && !isRule(err) {
+				r.Violate("C02", "invalidate-error", "invalidate-returns-internal-error", "InvalidateBlock(%v): %v", b, err)
+			}
+			s.CheckState("invalidate")
+		case 9: // reconsider
+			var cands []*MBlock
+			for _, b := range w.Blocks[1:] {
+				if s.manualInv[b] || (s.excluded(b) && s.accepted(b) && c.Bool(200, "reconsider-descendant")) {
+					cands = append(cands, b)
+				}
+			}
+			if len(cands) == 0 {
+				continue
+			}
+			b := cands[c.Intn(len(cands), "reconsider")]
+			err := n.Chain.ReconsiderBlock(&b.Hash)
+			// the block itself is a candidate again (descendants that were
+			// invalidated separately, and invalidated ancestors, stay excluded)
+			delete(s.manualInv, b)
+			r.Event("reconsider", "%v err=%v", b, err != nil)
+			r.Sig("reconsider")
+			r.Probe("reconsider")
+			if err != nil && !isRule(err) {
+				r.Violate("C02", "reconsider-error", "reconsider-returns-internal-error", "ReconsiderBlock(%v): %v", b, err)
+			}
+			s.CheckState("reconsider")
 		case 0: // mine a block somewhere
 			parent := s.pickParent()
 			o := BlockOpts{NTx: c.Intn(maxTx+1, "ntx")}
